@@ -223,6 +223,25 @@ def d2_data_owners(ctx, committer, appenders):
                any(e.kind == 'WRITE-HANDLE' for e in ctx.E.primitives(a))]
     for a in arr_app:
         owners[a.qualname] = 'the appender, found by role (seek end, tofile, flush)'
+    # a private helper of array.py / of class Array that is only ever called by owners is part of its owners: the
+    # primitive is still reachable only through them (who-may-call closure).  The owner-specific conditions are then
+    # judged at the helper's call sites.
+    origin = {}
+    changed = True
+    while changed:
+        changed = False
+        for g in ctx.repo.all_funcs():
+            if g.qualname in owners or g.module.name != 'array' or not g.name.startswith('_') or g.name.startswith('__'):
+                continue
+            if not any(e.kind in ('WRITE-PATH', 'TRUNC-WRITE', 'RESIZE', 'WRITE-HANDLE') for e in ctx.E.primitives(g)):
+                continue
+            callers = ctx.E._callers(g)
+            if callers and all(c_.qualname in owners for c_, _ in callers):
+                names = sorted({origin.get(c_.qualname, c_.qualname) for c_, _ in callers})
+                if len(names) == 1:
+                    owners[g.qualname] = f'private helper called only by {names[0]}'
+                    origin[g.qualname] = names[0]
+                    changed = True
     for f in ctx.repo.all_funcs():
         for e in ctx.E.primitives(f):
             role = e.role
@@ -252,8 +271,19 @@ def d2_data_owners(ctx, committer, appenders):
                                f'owners {sorted(owners)}: such a state is not one the descriptor '
                                f'bookkeeping and the recovery path account for')
                 continue
-            if e.kind == 'RESIZE' and f.qualname == 'Array.iterappend':
+            if e.kind == 'RESIZE' and origin.get(f.qualname) == 'truncate_array':
+                # shrink-only is a condition of the call sites in truncate_array; not decided for a helper: stay closed
+                ctx.bad('R-OWN', 'D2', f, e.node, construct, inst,
+                        detail=f'the resize moved into the helper {f.qualname}: that it can only shrink the file is a condition '
+                               f'of its callers which this rule does not follow')
+                continue
+            if e.kind == 'RESIZE' and (f.qualname == 'Array.iterappend' or origin.get(f.qualname) == 'Array.iterappend'):
                 in_handler = any(isinstance(p, ast.ExceptHandler) for p, _ in enclosing(f.node, e.node))
+                if not in_handler and f.qualname != 'Array.iterappend':
+                    # a helper: all its call sites lie inside a handler of the owner
+                    sites = ctx.E._callers(f)
+                    in_handler = bool(sites) and all(any(isinstance(p, ast.ExceptHandler) for p, _ in enclosing(c_.node, n_))
+                                                     for c_, n_ in sites)
                 ctx.decide(in_handler, 'R-OWN', 'D2', f, e.node, construct,
                            inst + ' (only inside the recovery handler)',
                            detail='a resize outside the recovery handler (e.g. a preallocation) makes the '
